@@ -257,7 +257,7 @@ def cases(tier):
                  ([1048576.0, 0.0], [1048578.0, 1.0])],
              3: [([0.0, 0.0, 0.0], [1.0, 1.0, 1.0]), ([-1.0, -1.0, -1.0], [3.0, 3.0, 3.0]), ([-3.0, 2.0, 0.0], [6.0, 4.0, 1.0]),
                  ([-2.0, -1.0, 0.0], [2.0, 3.0, 1.0])]}
-    maxl = {1: 5, 2: 4, 3: 3} if tier != "quick" else {1: 5, 2: 4, 3: 3}
+    maxl = {1: 8, 2: 4, 3: 3} if tier != "quick" else {1: 7, 2: 4, 3: 3}
     for d in (1, 2, 3):
         for lmin in range(1, maxl[d] + 1):
             for lmax in range(lmin, maxl[d] + 1):
